@@ -6,9 +6,15 @@
     least once, and only ever yields records of its current section (so a deleted record, once removed,
     is not yielded again).  PARTIAL: that the concrete cursor code refines this machine is decided each
     run by the correspondence over all deletion subsets of small sections (gen/hist.py computes its
-    expectations with exactly this machine). *)
+    expectations with exactly this machine).
+    One step of the concrete cursor code on a decompressed object is proved (Proofs/DeleteInv.v): from any state satisfying
+    the C08 invariant [dinv], a successful delete through a cursor on a non-OPT record removes exactly that record (the reading
+    afterwards is the old one without it), leaves the cursor without an offset, keeps [dinv] - so the section's offset is where
+    its first remaining record starts and an emptied section is absent (C11_section_offsets) - and a second delete through that
+    cursor reports a void record and changes nothing (C11_second_delete_void). *)
 From Coq Require Import List Arith Bool.
-From DV Require Import Proofs.DeleteWalk.
+From DV Require Import Model.Base Model.Parser Model.Header Model.Readers Model.Mutate Spec.NameSpec Spec.PacketSpec Spec.RecordSpec Spec.PlainSpec
+  Proofs.Hoare Proofs.WalkSkip Proofs.PlainWf Proofs.InsertSpec Proofs.DeleteInv Proofs.DeleteWalk.
 Import ListNotations.
 
 Theorem C11_walk_terminates : forall (A : Type) (D : A -> bool) (l : list A),
@@ -30,3 +36,32 @@ Print Assumptions C11_yields_from_current_section.
 
 Example C11_sample : awalk (fun x => Nat.eqb x 2 || Nat.eqb x 4) 100 [1;2;3;4] 0 [] = Some ([1;3], [1;2;1;3;4;1;3]).
 Proof. vm_compute. reflexivity. Qed.
+
+Theorem C11_delete_removes_the_record_under_the_cursor : forall v it s' qls qt lA lN lR r x,
+  dinv v -> reading (pp_packet v) qls qt lA lN lR -> In (r, x) (lA ++ lN ++ lR) -> is_opt r = false ->
+  it_offset it = Some (rv_off r) -> it_name_end it = rv_name_end r -> it_offset_next it = rv_name_end r + 10 + rv_rdlen r ->
+  m_delete (v, it) = (s', Ok tt) ->
+  dinv (fst s') /\ it_offset (snd s') = None /\
+  exists A Nn R A' Nn' R' X1 r0 X2,
+    let o1 := 12 + length (wire_of_labels qls) + 4 in
+    lA = place o1 A /\ lN = place (o1 + length (cat A)) Nn /\ lR = place (o1 + length (cat A) + length (cat Nn)) R /\
+    reading (pp_packet (fst s')) qls qt (place o1 A') (place (o1 + length (cat A')) Nn') (place (o1 + length (cat A') + length (cat Nn')) R') /\
+    A ++ Nn ++ R = X1 ++ (r0, x) :: X2 /\ A' ++ Nn' ++ R' = X1 ++ X2 /\ r = rv_at r0 x (o1 + length (cat X1)) /\
+    ((length A' + 1 = length A /\ Nn' = Nn /\ R' = R) \/ (A' = A /\ length Nn' + 1 = length Nn /\ R' = R) \/
+     (A' = A /\ Nn' = Nn /\ length R' + 1 = length R)) /\
+    (forall w0, u16_at (pp_packet v) 2 w0 -> u16_at (pp_packet (fst s')) 2 w0).
+Proof. exact delete_keeps_dinv. Qed.
+Print Assumptions C11_delete_removes_the_record_under_the_cursor.
+
+Theorem C11_second_delete_void : forall v it, it_offset it = None -> m_delete (v, it) = ((v, it), Err VoidRecord).
+Proof. exact delete_void. Qed.
+Print Assumptions C11_second_delete_void.
+
+Theorem C11_section_offsets : forall v qls qt lA lN lR, dinv v -> reading (pp_packet v) qls qt lA lN lR ->
+  pp_offset_question v = Some 12 /\ pp_offset_answers v = first_off lA /\ pp_offset_nameservers v = first_off lN /\
+  pp_offset_additional v = first_off lR.
+Proof. exact dinv_reading_offsets. Qed.
+Print Assumptions C11_section_offsets.
+
+Example C11_first_off_means : forall l, first_off l = match l with [] => None | rx :: _ => Some (rv_off (fst rx)) end.
+Proof. reflexivity. Qed.
